@@ -30,10 +30,10 @@ theorem cutsOK_of_formula {now : Nat} {be : Backend} {steps : List Step} {m : Na
   · right; simp [hx, hm0]
   · left; simp [hx]
 
-theorem cutsOK_write {w : W} (hw : WInv w) (order : List CommitPhase) (ho : order = [.payload, .pointer, .reclaim])
+theorem cutsOK_write {w : W} (hw : WInv w) (order : List CommitPhase) (ho : order = [.payload, .pointer, .reclaim]) (seeded : Bool)
     (now : Nat) (k : Path) (mode : PutMode) (data : Bytes) :
-    CutsOK now w.be (planWrite w order now k mode data).steps (w.nextId + 1) := by
-  rcases planWrite_steps w order now k mode data with h0 | ⟨d, hg, hs, _, _, hsteps, _, _⟩
+    CutsOK now w.be (planWrite w order seeded now k mode data).steps (w.nextId + 1) := by
+  rcases planWrite_steps w order seeded now k mode data with ⟨h0, _⟩ | ⟨d, hg, hs, _, _, hsteps, _, _⟩
   · rw [h0]; exact cutsOK_nil (hw.be.mono (Nat.le_succ _))
   · rw [hsteps, ho, commitSteps_std, curOf_doc]
     apply cutsOK_of_formula k (some (committed d data now)) 2 (by simp)
@@ -81,10 +81,7 @@ theorem cutsOK_copyCommit {w : W} (hw : WInv w) (cache : List (Path × Doc)) (no
     exact copy_prefix hw.be now dst ⟨now, w.nextId⟩ rfl _ b bt hb (copyDoc now w.nextId src) rfl (by simp [copyDoc, hsz]) n
 
 theorem planDelete_steps (w : W) (cache : List (Path × Doc)) {be : Backend} {m : Nat} (h : BInv be m) (k : Path) :
-    (planDelete w cache be k).steps =
-      match docAt be k with
-      | some d => [Step.del (.mt k), Step.del (payloadPath k d.gen)]
-      | none => [] := by
+    (planDelete w cache be k).steps = deleteSteps k (docAt be k) := by
   unfold planDelete
   simp only []
   rw [curOf_of_inv h]
@@ -100,6 +97,7 @@ theorem cutsOK_delete (w : W) (cache : List (Path × Doc)) {be : Backend} {m : N
   cases hd : docAt be k with
   | none => exact cutsOK_nil h
   | some d =>
+      simp only [deleteSteps]
       apply cutsOK_of_formula k none 1 (by simp)
       intro n
       have := delete_prefix h now k n
@@ -180,6 +178,7 @@ theorem cutsOK_rename {w : W} (hw : WInv w) (cache : List (Path × Doc)) (now : 
     have hB := fun n => delete_prefix hbe2 now srck n
     simp only [hd2] at hB
     rw [planDelete_steps w cache2 hbe2, hd2]
+    simp only [deleteSteps]
     intro n
     rw [applyPrefix_append]
     have hfinal : ∀ x, readCold (applySteps now w.be (a ++ [Step.del (.mt srck), Step.del (payloadPath srck d2.gen)])) x =
@@ -217,8 +216,8 @@ theorem cutsOK_stepsOf {w : W} (hw : WInv w) (now : Nat) (c : Call) :
     CutsOK now w.be (stepsOf w now c) (w.nextId + 1) := by
   have hnil : CutsOK now w.be [] (w.nextId + 1) := cutsOK_nil (hw.be.mono (Nat.le_succ _))
   cases c with
-  | put k mode data => exact cutsOK_write hw _ (gen_put_order _) now k mode data
-  | mput k parts => exact cutsOK_write hw _ (gen_complete_order _) now k .overwrite _
+  | put k mode data => exact cutsOK_write hw _ (gen_put_order _) _ now k mode data
+  | mput k parts => exact cutsOK_write hw _ (gen_complete_order _) _ now k .overwrite _
   | get k o => exact hnil
   | getRanges k rs => exact hnil
   | delete k => exact (cutsOK_delete w w.cache hw.be now k).mono (Nat.le_succ _)
@@ -234,7 +233,7 @@ theorem cutsOK_stepsOf {w : W} (hw : WInv w) (now : Nat) (c : Call) :
           rw [hbe, hn] at this
           exact this
   | rename src dst create =>
-      simp only [stepsOf]
+      simp only [stepsOf, rename_guard, rename_order_std, if_true]
       by_cases hsd : src = dst
       · simp only [hsd, if_true]; exact hnil
       · simp only [hsd, if_false]
